@@ -11,7 +11,7 @@ name resolves to, and purity of the accessors the value-flow engine summarises a
     with no other effect.
 """
 from . import terms as T
-from .facts import walk, strip_generics, type_head
+from .facts import walk, strip_generics, type_head, canon_path
 
 
 def _root(facts, b):
@@ -57,7 +57,7 @@ def reference_api():
         pass
     import json, os
     try:
-        _REF_API = set(json.load(open(os.path.join(os.path.dirname(os.path.abspath(__file__)), 'floors.json'))).get('_api') or [])
+        _REF_API = set(canon_path(x) for x in (json.load(open(os.path.join(os.path.dirname(os.path.abspath(__file__)), 'floors.json'))).get('_api') or []))
     except Exception:
         _REF_API = set()
     return _REF_API
@@ -72,7 +72,7 @@ def entries_of(facts, b, seen=None):
     if root['did'] in seen:
         return set()
     seen.add(root['did'])
-    path = strip_generics(root['path'])
+    path = canon_path(root['path'])      # generic parameter names are free
     callers = call_graph(facts).get(root['did'], set())
     new_helper = is_entry(root) and root.get('container') not in ('trait_impl', 'trait') and path not in reference_api() and callers
     if is_entry(root) and not new_helper:
@@ -165,6 +165,7 @@ def check_frame(ctx, pfx, adt, table, why):
     for fl in st['fields']:
         f = fl['name']
         allowed = table.get(f)
+        allowed = set(canon_path(a) for a in allowed) if allowed is not None else None
         if allowed is None:
             # a field the table does not know (added later): it is not part of the specified state; if the anchored
             # transition came to depend on it, the normal-form obligations of the spec change and report that
@@ -241,7 +242,7 @@ def accessor_pure(ctx, pfx, b, field, mut=True):
     """`fn acc(&mut self) -> &mut F { &mut self.<field> }` and nothing else"""
     from .speclib import keyrepr
     from .vflow import Ref
-    A = strip_generics(b['path'])
+    A = canon_path(b['path'])
     ev = ctx.evaluate(b)
     ret = ev.ret
     ok_ret = isinstance(ret, Ref) and keyrepr(ret.place) == 'self.' + field
@@ -270,5 +271,5 @@ def no_override(ctx, pfx, trait, name, why):
     prov = [b for b in ctx.facts.bodies if b.get('container') == 'trait' and strip_generics(b.get('trait') or '') == trait and b.get('name') == name]
     over = [b for b in ctx.facts.bodies if b.get('container') == 'trait_impl' and strip_generics(b.get('trait') or '') == trait and b.get('name') == name]
     ctx.check(pfx + '.no_override', '%s::%s' % (trait, name), 'override', bool(prov) and not over, expected='provided by the trait, overridden by no implementor in the crate',
-              found='overridden by ' + ', '.join(strip_generics(b['path']) for b in over) if over else ('no provided body found' if not prov else 'no override'),
+              found='overridden by ' + ', '.join(canon_path(b['path']) for b in over) if over else ('no provided body found' if not prov else 'no override'),
               sp=over[0]['sp'] if over else None, why=why)
